@@ -5,6 +5,7 @@ package imapx
 
 import (
 	"fmt"
+	"time"
 
 	"verifharness/internal/hx"
 	"verifharness/internal/prng"
@@ -19,6 +20,7 @@ type Op struct {
 	A int64  `json:"a,omitempty"`
 	V int64  `json:"v,omitempty"`
 	F bool   `json:"f,omitempty"` // cache histories (C11): the create function fails
+	N []Op   `json:"n,omitempty"` // cache histories (C11): calls made re-entrantly from the create function / members of a concurrent batch
 }
 
 func CoqOp(o Op) string {
@@ -53,8 +55,10 @@ type Obs struct {
 	Deleted  int
 	SumRef   int
 	HeadOK   bool
+	Len      int // Map.Len() after the call
 	Panicked bool
 	PanicMsg string
+	Hung     bool // the call did not return (see RunGuarded)
 }
 
 type entry = iterable.MapEntry[int64, int64]
@@ -125,22 +129,71 @@ func (r *Runner) Do(o Op) (obs Obs) {
 		panic("bad op " + o.K)
 	}
 	n, d, s, ok := r.M.VerifWalk()
-	return Obs{Out: out, Nodes: n, Deleted: d, SumRef: s, HeadOK: ok}
+	return Obs{Out: out, Nodes: n, Deleted: d, SumRef: s, HeadOK: ok, Len: r.M.Len()}
 }
 
-// Run executes a history; it stops after the first panic.
-func Run(ops []Op) []Obs {
-	r := NewRunner()
+// CaseTimeout bounds one whole history (some tens of calls, microseconds each
+// on the unchanged tree: the bound is >= 10^5 times the typical duration).
+var CaseTimeout = 10 * time.Second
+
+// RunGuarded executes a history on a fresh map in its own goroutine; before(i)
+// runs ahead of the i-th call.  It stops after the first panic.  A history
+// that does not finish within CaseTimeout is run again (up to three times in
+// all, so that a stalled machine is not mistaken for a hang); if it still
+// does not finish, the call that did not return is reported as the
+// observation Hung (printed as OutNoFuel, which the model never produces on
+// a well-formed history) and the goroutine is abandoned.
+func RunGuarded(ops []Op, before func(i int)) []Obs {
 	var res []Obs
-	for _, o := range ops {
-		ob := r.Do(o)
-		res = append(res, ob)
-		if ob.Panicked {
-			break
+	for attempt := 0; attempt < 3; attempt++ {
+		var hung bool
+		res, hung = runOnce(ops, before)
+		if !hung {
+			return res
 		}
 	}
-	return res
+	HungCases++
+	return append(res, Obs{Out: "OutNoFuel", Panicked: true, Hung: true,
+		PanicMsg: fmt.Sprintf("the call did not return within %v (3 attempts)", CaseTimeout)})
 }
+
+// HungCases counts histories abandoned by RunGuarded (each leaves a spinning goroutine behind).
+var HungCases int
+
+func runOnce(ops []Op, before func(i int)) ([]Obs, bool) {
+	out := make(chan Obs, len(ops)+1)
+	go func() {
+		r := NewRunner()
+		for i, o := range ops {
+			if before != nil {
+				before(i)
+			}
+			ob := r.Do(o)
+			out <- ob
+			if ob.Panicked {
+				break
+			}
+		}
+		close(out)
+	}()
+	var res []Obs
+	timer := time.NewTimer(CaseTimeout)
+	defer timer.Stop()
+	for {
+		select {
+		case ob, ok := <-out:
+			if !ok {
+				return res, false
+			}
+			res = append(res, ob)
+		case <-timer.C:
+			return res, true
+		}
+	}
+}
+
+// Run executes a history; it stops after the first panic or hang.
+func Run(ops []Op) []Obs { return RunGuarded(ops, nil) }
 
 // ---------------------------------------------------------------- generators
 
@@ -329,6 +382,51 @@ func Random(r *prng.R, n, nkeys, slots int, closeAll bool) []Op {
 		}
 	}
 	if closeAll {
+		for _, sl := range s.OpenSlots() {
+			ops = append(ops, s.Close(sl))
+		}
+		ops = append(ops, Op{K: "L"}, Op{K: "F"})
+	}
+	return ops
+}
+
+// RandomChurn returns a long well-formed history made of rounds: iterators are
+// opened, entries are added and removed under them (First is called while
+// removed entries are pinned), the iterators are advanced part of the way and
+// then all closed, and the map is used again.  After every round no iterator
+// is open, so whatever a round leaves behind accumulates over the history.
+func RandomChurn(r *prng.R, n, nkeys, slots int) []Op {
+	s := NewSim(slots)
+	keys := make([]int64, nkeys)
+	for i := range keys {
+		keys[i] = int64(i + 1)
+	}
+	var ops []Op
+	for len(ops) < n {
+		for sl := 0; sl < slots; sl++ {
+			if s.Slot[sl] == 0 && r.Chance(2, 3) {
+				ops = append(ops, s.Open(sl))
+			}
+			if r.Chance(1, 2) {
+				ops = append(ops, s.Add(prng.Pick(r, keys)))
+			}
+		}
+		for j := 8 + r.Intn(16); j > 0; j-- {
+			open := s.OpenSlots()
+			x := r.Intn(10)
+			switch {
+			case x < 3:
+				ops = append(ops, s.Add(prng.Pick(r, keys)))
+			case x < 6:
+				ops = append(ops, s.Remove(prng.Pick(r, keys)))
+			case x < 7:
+				ops = append(ops, Op{K: "F"})
+			case x < 9 && len(open) > 0:
+				ops = append(ops, Op{K: "N", A: s.Slot[prng.Pick(r, open)]})
+			case len(open) > 0:
+				ops = append(ops, Op{K: "H", A: s.Slot[prng.Pick(r, open)]})
+			}
+		}
 		for _, sl := range s.OpenSlots() {
 			ops = append(ops, s.Close(sl))
 		}
